@@ -75,6 +75,17 @@ func genMsgAlg(r *rand.Rand, n int) []string {
 			av = []string{"t:2d37", "nil", "b:07", "T", "f:-7"}[r.Intn(5)]
 		case 7:
 			av = []string{"i64:4294967296", "i64:-2147483649", "u64:18446744073709551615", "int:0"}[r.Intn(4)]
+			if r.Intn(2) == 0 { // values that equal the key's algorithm only after a 64- or 32-bit wrap-around
+				av = []string{
+					fmt.Sprintf("u64:%d", uint64(int64(alg))),
+					fmt.Sprintf("i64:%d", int64(alg)+(1<<32)),
+					fmt.Sprintf("i64:%d", int64(alg)-(1<<32)),
+					fmt.Sprintf("u64:%d", uint64(int64(alg))+(1<<32)),
+				}[r.Intn(4)]
+				if alg >= 0 && strings.HasPrefix(av, fmt.Sprintf("u64:%d", alg)) && !strings.Contains(av, "429") {
+					av = fmt.Sprintf("u64:%d", uint64(1<<63)+uint64(alg))
+				}
+			}
 		default:
 			av = fmt.Sprintf("int:%d", alg)
 		}
@@ -307,8 +318,11 @@ func genMsgForeign(r *rand.Rand, n int) []string {
 		case 1:
 			msg = append([]byte{0xd8, 0x3d}, append(append([]byte{}, kindPrefix[kind]...), msg...)...)
 		}
-		p := &producedMsg{kind: kind, mode: "raw", ext: hxOpt(ext), keys: []msgKey{k}}
+		p := &producedMsg{kind: kind, mode: "raw", ext: hxOpt(ext), keys: []msgKey{k}, data: msg, ok: true}
 		out = append(out, p.consumeLine(msg, p.ext, p.pubKeys()), "msg.reencode "+kind+" "+hx(msg))
+		if i%3 == 0 { // the same message object and verifier over two foreign messages / two external data
+			out = append(out, history(r, p)[:3]...)
+		}
 		// chain: decode -> encode -> decode -> verify, on the library
 		if re := reencode(kind, msg); strings.HasPrefix(re, "ok ") {
 			out = append(out, p.consumeLine(unhx(re[3:]), p.ext, p.pubKeys()))
